@@ -106,11 +106,11 @@ def check_vs(case):
                         viols.append(crash_violation(exc, case1, assertion="virtual-site-constructed"))
                         break
                     want = manual_vs(kind, params, pts)
-                    if np.abs(got - want).max() > 1e-9 and len(viols) < 20:
+                    if not np.abs(got - want).max() <= 1e-9 and len(viols) < 20:
                         viols.append(dict(assertion="virtual-site-on-manual-formula", tags=[f"vs:{kind}"],
                                           message=f"{kind} {params} config {ci}: {got} expected {want}", case=case1, detail={}))
                     ref0 = R @ manual_vs(kind, params, base) + t
-                    if np.abs(got - ref0).max() > 1e-9 and len(viols) < 20:
+                    if not np.abs(got - ref0).max() <= 1e-9 and len(viols) < 20:
                         viols.append(dict(assertion="virtual-site-equivariant", tags=[f"vs:{kind}"],
                                           message=f"{kind} {params} config {ci}: construction does not follow the rigid motion", case=case1, detail={}))
                 keys.append(f"vs:{kind}:{params}:{ci}")
@@ -281,7 +281,7 @@ def judge_templates(top, records, defs, resnames, case1, user=None):
             bad("template-holds-the-residue-atom-names", f"residue {node}: template atoms {sorted(tmpl)} residue atoms {sorted(d['names'])}")
             continue
         cog = np.mean([np.asarray(v, dtype=float) for v in tmpl.values()], axis=0)
-        if np.abs(cog).max() > 1e-9:
+        if not np.abs(cog).max() <= 1e-9:
             bad("template-centre-of-geometry-zero", f"residue {node}: centre of geometry {cog}")
         vol = top.volumes.get(key)
         if vol is None or not vol > 0:
@@ -310,16 +310,16 @@ def judge_templates(top, records, defs, resnames, case1, user=None):
                 pts = [co[a] for a in it.atoms]
                 if sec in ("bonds", "constraints"):
                     dev = abs(np.linalg.norm(pts[0] - pts[1]) - float(it.parameters[1]))
-                    if dev > 0.05 + 1e-9:
+                    if not dev <= 0.05 + 1e-9:
                         bad("optimised-template-meets-targets", f"{sec} {it.atoms}: deviation {dev:.4f} nm > 0.05 although reported optimised")
                 elif sec == "angles":
                     dev = abs(angle_deg(*pts) - float(it.parameters[1]))
-                    if dev > 5 + 1e-6:
+                    if not dev <= 5 + 1e-6:
                         bad("optimised-template-meets-targets", f"angle {it.atoms}: deviation {dev:.2f} deg > 5 although reported optimised")
                 elif sec == "dihedrals" and it.parameters[0] == "2":
                     dev = abs(dihedral_deg(*pts) - float(it.parameters[1]))
                     dev = min(dev, 360 - dev)
-                    if dev > 5 + 1e-6:
+                    if not dev <= 5 + 1e-6:
                         bad("optimised-template-meets-targets", f"improper {it.atoms}: deviation {dev:.2f} deg > 5 although reported optimised")
     return viols, keys
 
@@ -416,14 +416,14 @@ def check_two_molecules(case):
                                       message=f"molecule {mm.mol_name}: template atoms {None if tmpl is None else sorted(tmpl)} residue atoms {sorted(d['names'])}", case=case1, detail={}))
                     continue
                 cog = np.mean([np.asarray(v, dtype=float) for v in tmpl.values()], axis=0)
-                if np.abs(cog).max() > 1e-9:
+                if not np.abs(cog).max() <= 1e-9:
                     viols.append(dict(assertion="template-centre-of-geometry-zero", tags=[], message=f"{mm.mol_name}: {cog}", case=case1, detail={}))
                 if not top.volumes.get(key, 0) > 0:
                     viols.append(dict(assertion="size-positive", tags=[], message=f"{mm.mol_name}: size {top.volumes.get(key)}", case=case1, detail={}))
                 # the size belongs to this residue's own template: radius of gyration of the template positions pushed
                 # outwards by the particle radius (sigma 0.30 for every atom type here); recomputed independently
                 want_size = ref_size(tmpl, 0.30)
-                if abs(top.volumes.get(key, 0) - want_size) > 1e-9 and len(viols) < 20:
+                if not abs(top.volumes.get(key, 0) - want_size) <= 1e-9 and len(viols) < 20:
                     viols.append(dict(assertion="size-computed-from-own-template", tags=["same-resname-different-content"],
                                       message=f"{mm.mol_name} residue {sorted(d['names'])}: size {top.volumes.get(key)} but its template gives {want_size}", case=case1, detail={}))
         ka, kb = keys_by_def.get(da["id"], set()), keys_by_def.get(db["id"], set())
@@ -462,7 +462,7 @@ def check_vs_residues(case):
                     pts = [np.asarray(tmpl[base["names"][i - 1]], dtype=float) for i in idx]
                     want = manual_vs(kind, params, pts)
                     got = np.asarray(tmpl["V"], dtype=float)
-                    if np.abs(got - want).max() > 1e-6:
+                    if not np.abs(got - want).max() <= 1e-6:
                         viols.append(dict(assertion="virtual-site-on-manual-formula", tags=[f"vs:{kind}", "in-template"],
                                           message=f"{kind} {params}: template site {got} expected {want}", case=case1, detail={}))
                 keys.append(f"vsres:{kind}:{params}:{layout}")
@@ -504,7 +504,7 @@ def check_user(case):
             if give_t and tkeys[0] in mm.templates:
                 cog = np.mean(np.array(list(tmpl3.values())), axis=0)
                 for n, p in tmpl3.items():
-                    if np.abs(np.asarray(mm.templates[tkeys[0]][n]) - (np.array(p) - cog)).max() > 1e-9:
+                    if not np.abs(np.asarray(mm.templates[tkeys[0]][n]) - (np.array(p) - cog)).max() <= 1e-9:
                         viols.append(dict(assertion="user-template-used-unchanged", tags=[], message=f"atom {n}: {mm.templates[tkeys[0]][n]} expected {np.array(p) - cog}", case=case1, detail={}))
                 regenerated = [r for r in recs if sorted(r["block"].nodes) == ["A", "B", "C"]]
                 if regenerated:
@@ -578,11 +578,11 @@ def check_optgeom(case):
                 pts = {names[n]: np.asarray(c2[n], dtype=float) for n in nodes}
                 dev = abs(dihedral_deg(pts["CA"], pts["N"], pts["C"], pts["CB"]) - ref)
                 dev = min(dev, 360 - dev)
-                if dev > 5 + 1e-6:
+                if not dev <= 5 + 1e-6:
                     viols.append(dict(assertion="optimised-template-meets-targets", tags=["improper"],
                                       message=f"improper CA-N-C-CB = {dihedral_deg(pts['CA'], pts['N'], pts['C'], pts['CB']):.2f} deg, target {ref}, start {shape} {pert}: reported optimised", case=case1, detail={}))
                 for a, b, l in (("CA", "N", 0.147), ("CA", "C", 0.153), ("CA", "CB", 0.153)):
-                    if abs(np.linalg.norm(pts[a] - pts[b]) - l) > 0.05 + 1e-9:
+                    if not abs(np.linalg.norm(pts[a] - pts[b]) - l) <= 0.05 + 1e-9:
                         viols.append(dict(assertion="optimised-template-meets-targets", tags=["bond"], message=f"bond {a}-{b} off, start {shape} {pert}", case=case1, detail={}))
                 keys.append(f"optgeom:{ref}:{shape}:{pert}")
     return viols, evals, keys
